@@ -1158,6 +1158,8 @@ def m_res_from_residual(E, st, fid, t, args, dest_ty):
 @model('core::cmp::Ord::min', 'the smaller of the two')
 def m_min(E, st, fid, t, args, dest_ty):
     a, b = args[0], args[1]
+    if a[0] in ('int', 'slen', 'aff') and b[0] in ('int', 'slen', 'aff') and (a[0] != 'int' or b[0] != 'int'):
+        return ret(st, ('minof', a, b))
     r = fresh('r')
     st.zone.touch(r)
     for x in (a, b):
@@ -1166,3 +1168,13 @@ def m_min(E, st, fid, t, args, dest_ty):
         elif x[0] == 'slen' and st.zone.entails_eq(x[1], 0):
             st.zone.add_le(r, x[2])
     return ret(st, I(r))
+
+
+@model(['core::num::<impl usize>::saturating_sub'], 'max(0, a - b)')
+def m_saturating_sub(E, st, fid, t, args, dest_ty):
+    from .interp import to_aff, aff_add, aff_norm
+    a, b = args[0], args[1]
+    ta, tb = to_aff(a), to_aff(b)
+    if ta is None or tb is None:
+        return E.opaque_call(st, fid, t, args, dest_ty)
+    return ret(st, ('satsub', aff_norm(aff_add(ta, tb, -1))))
